@@ -447,4 +447,56 @@ func Keys$N(zoom int) string {
 	return keys + arr[lib] + arr[fmt] + string(rune('0'+sl[fmt])) + string(rune('0'+ms[sort]+ms[sort+"x"])) +
 		string(rune('0'+rec.fmt+rec.scale$N)) + string(rune('0'+nested[strings][sort]+len(arr)+len(sl))) + string(rune('0'+byVar[strings]+byVar[scale$N]))
 }`, `Keys$N(0) + "|" + Keys$N(4)`},
+	{"locals-consts-types-typeparams-named-like-generated-imports", `func Pad$N(s string) string {
+	const strings = 3
+	return {STR}Repeat(s, strings)
 }
+
+func Join$N[strings any](xs []strings, f func(strings) string) string {
+	var parts []string
+	for _, x := range xs {
+		parts = append(parts, f(x))
+	}
+	return {STR}Join(parts, ",")
+}
+
+func Shout$N(s string) string {
+	type strings struct{ v string }
+	x := strings{v: s}
+	return {STR}ToUpper(x.v)
+}`, `Pad$N("ab") + Join$N([]int{1, 2}, func(i int) string { return {FMT}Sprint(i * i) }) + Shout$N("hey")`},
+	{"typeswitch-var-named-like-import", `func TS$N(v interface{}) string {
+	switch strings := v.(type) {
+	case int:
+		return string(rune('0' + strings + 1))
+	case string:
+		return strings + "!"
+	}
+	return "?"
+}`, `TS$N(1) + TS$N("a")`},
+	{"embedded-imported-field", `type Emb$N struct {
+	{STR}Builder
+	n int
+}
+
+func UseEmb$N() string {
+	var e Emb$N
+	e.WriteString("x")
+	e.n++
+	return e.String() + {FMT}Sprint(e.n)
+}`, `UseEmb$N()`},
+	{"renamed-local-next-to-its-numbered-sibling", `func Two$N() string {
+	strings := "a"
+	strings2 := "b"
+	sort, sort2, sort3 := 1, 2, 3
+	f := func(fmt2 int) int {
+		fmt := fmt2 * 2
+		return fmt + fmt2
+	}
+	return strings + strings2 + string(rune('0'+sort+sort2*2+sort3*3)) + string(rune('0'+f(1)))
+}`, `Two$N()`},
+}
+
+// c15NeedsStrAlias: snippets that declare a local named "strings" and use package strings inside
+// its scope — legal only where the user's own name for that package is something else.
+var c15NeedsStrAlias = map[string]bool{"locals-consts-types-typeparams-named-like-generated-imports": true}
